@@ -20,24 +20,8 @@ from ..sim import Adt, Bytes, Opq, UNK
 W = "std::io::Write"
 
 
-def run(ctx):
-    db = ctx.facts(["poly"])
-    lexpr = db.crate("lexpr")
-    serde = db.crate("serde_lexpr")
-    ctx.explanation = (
-        "Static rules over the type-checked MIR of lexpr and serde-lexpr (all functions, including closures, "
-        "macro-generated and derived bodies). R-WRITEALL: every call whose callee is io::Write::write / "
-        "write_vectored is reported unless it is the forwarding body of an `impl io::Write` write method; with "
-        "write_all as the only emission primitive, a short-writing sink cannot lose, duplicate or reorder bytes and a "
-        "zero-length acceptance becomes WriteZero, for every value and every write schedule. R-ERRDROP-IO: no "
-        "io::Result is dropped/discarded. R-FMT-AGREE: constant propagation of Options::default() through each "
-        "CustomizedFormatter override yields the same sink-call sequence as the trait default method. "
-        "The behaviour (byte equality of outputs) is not decided, only these necessary structural conditions.")
-    ctx.trusted = ["rustc nightly MIR construction", "std::io::Write::write_all / write_fmt contracts",
-                   "itoa/ryu return complete text"]
-    ctx.assumptions = ["sinks implement io::Write per its documented contract"]
-
-    # ---------------------------------------------------------------- R-WRITEALL
+def writeall(ctx, lexpr, serde, floor_name="write_all-sites"):
+    """R-WRITEALL (shared by C01/C02/C07): text reaches an io sink only through write_all / write_fmt."""
     r = ctx.rule("R-WRITEALL", "no io::Write::{write,write_vectored} call whose count can be ignored; "
                                "sink methods limited to write_all/write_fmt/flush")
     n_write_all = 0
@@ -80,7 +64,28 @@ def run(ctx):
                             "%s uses io::Write::%s, which is outside the audited sink-method set "
                             "{write_all, write_fmt, flush}" % (where, m), fn.loc(t.get("line")))
     r.note("io::Write call sites examined: %d (write_all: %d)" % (n_sink_calls, n_write_all))
-    r.floor("write_all-sites", n_write_all)
+    r.floor(floor_name, n_write_all)
+
+
+
+def run(ctx):
+    db = ctx.facts(["poly"])
+    lexpr = db.crate("lexpr")
+    serde = db.crate("serde_lexpr")
+    ctx.explanation = (
+        "Static rules over the type-checked MIR of lexpr and serde-lexpr (all functions, including closures, "
+        "macro-generated and derived bodies). R-WRITEALL: every call whose callee is io::Write::write / "
+        "write_vectored is reported unless it is the forwarding body of an `impl io::Write` write method; with "
+        "write_all as the only emission primitive, a short-writing sink cannot lose, duplicate or reorder bytes and a "
+        "zero-length acceptance becomes WriteZero, for every value and every write schedule. R-ERRDROP-IO: no "
+        "io::Result is dropped/discarded. R-FMT-AGREE: constant propagation of Options::default() through each "
+        "CustomizedFormatter override yields the same sink-call sequence as the trait default method. "
+        "The behaviour (byte equality of outputs) is not decided, only these necessary structural conditions.")
+    ctx.trusted = ["rustc nightly MIR construction", "std::io::Write::write_all / write_fmt contracts",
+                   "itoa/ryu return complete text"]
+    ctx.assumptions = ["sinks implement io::Write per its documented contract"]
+
+    writeall(ctx, lexpr, serde, "write_all-sites")
 
     # ---------------------------------------------------------------- R-ERRDROP-IO
     r2 = ctx.rule("R-ERRDROP-IO", "no io::Error-carrying value dropped or discarded on a normal path in the "
